@@ -60,7 +60,10 @@ def main():
                 'design_ref': f'DESIGN.md section {ref}',
             },
             'level_note': 'Trusted base: numpy/scipy/LAPACK arithmetic, the oracle code under pbv/oracles and in the property module, the stated tolerances; the search covers only the generated cases (counts and class histogram in the evidence file).',
-            'technique': tech,
+            'technique': tech + (
+                '; thorough tier adds coverage-guided fuzzing (atheris/libFuzzer) of the same oracle'
+                if pid in ('C01', 'C10', 'C13', 'C14', 'C15', 'C16', 'C18', 'C19') else '') +
+            '; value protocol (refilled caller buffers) on a share of the library calls',
         })
     manifest = {
         'version': 1,
